@@ -139,7 +139,7 @@ def runOps (F : Forecaster) : F.S → List Op → List String → List Log → S
   | _, [], outs, logs =>
       ";".intercalate outs.reverse ++ " # " ++ " @ ".intercalate (logs.reverse.map showLog)
   | s, op :: ops, outs, logs =>
-    match F.step s op with
+    match (F.step s op).run with
     | .error e => ";".intercalate ((showErr e :: outs).reverse)
     | .ok ((s', o), l) => runOps F s' ops (showOut o :: outs) (l :: logs)
 
